@@ -515,6 +515,9 @@ func (e *env) scenario(ops []string) (infra string, disagree *h.Disagreement, fa
 		return "", disagree, nil, "", strings.Join(steps, " ")
 	}
 	for _, op := range ops {
+		if disagree != nil {
+			break // the model lost track; the property's own oracle below still runs
+		}
 		if op == "U" {
 			continue // scenario option: unbuffered notification channel
 		}
@@ -526,9 +529,7 @@ func (e *env) scenario(ops []string) (infra string, disagree *h.Disagreement, fa
 			continue // no effect on the abstract state
 		}
 		e.r.Hit("op:" + op)
-		if !check(op) {
-			return "", disagree, nil, "", strings.Join(steps, " ")
-		}
+		check(op)
 	}
 	verdict := "?"
 	if e.d != nil {
@@ -539,7 +540,7 @@ func (e *env) scenario(ops []string) (infra string, disagree *h.Disagreement, fa
 	post := y.observe()
 	trace = strings.Join(steps, " ") + " | model " + verdict + " | probe ok=" + fmt.Sprint(ok) + " post=" + post.String()
 	if ok {
-		if verdict == "dead" || verdict == "stalled" {
+		if disagree == nil && (verdict == "dead" || verdict == "stalled") {
 			disagree = &h.Disagreement{Case: name + " | verdict " + state, Model: verdict, Impl: "every call returns, the loop publishes and a fresh subscription is served"}
 		}
 		return "", disagree, nil, "", trace
@@ -559,7 +560,7 @@ func (e *env) scenario(ops []string) (infra string, disagree *h.Disagreement, fa
 		post.subSend+post.subLock+post.fgWait+post.monPause == 0:
 		sig = sigStall
 	}
-	return "", nil, &h.OracleFailure{Case: name, Sig: sig, Detail: detail}, sig, trace
+	return "", disagree, &h.OracleFailure{Case: name, Sig: sig, Detail: detail}, sig, trace
 }
 
 func (e *env) run(ops []string) {
@@ -583,6 +584,11 @@ func (e *env) run(ops []string) {
 	e.r.Sample(name + " :: " + trace)
 	if dis != nil {
 		e.r.Disagree(dis.Case, dis.Model, dis.Impl)
+		// with the model out of step only an unclassified failure of the property's
+		// own oracle is reported as well
+		if fail != nil && fail.Sig == "" {
+			e.r.Fail(fail.Case, fail.Sig, fail.Detail)
+		}
 		return
 	}
 	if fail != nil {
